@@ -1,6 +1,6 @@
 """C03 — no beacon without a threshold of valid partials from distinct members."""
 import glob, json, os
-from .. import core, agg
+from .. import core, agg, netreshare
 from . import C01 as base
 
 ID = "C03"
@@ -175,6 +175,10 @@ def explore(ctx, res):
             res.report("cache|len-not-distinct-count", {"engine": "cache", "kind": "impl-violates", "ops": c["ops"], "observed": outs, "oracle": r[0]})
         res.cov.update(evaluations=len(c["ops"]), rule="replay of one cache-engine sequence")
         return
+    if ctx.get("replay") and json.load(open(ctx["replay"])).get("engine") == "net":
+        cov, _ = netreshare.replay_part(ctx, res, json.load(open(ctx["replay"])))
+        res.cov.update(evaluations=sum(cov["ops"].values()), rule="replay of one script of engine net", distribution={"net_reshare": cov})
+        return
     if ctx.get("replay"):
         c = json.load(open(ctx["replay"]))
         seqs = [agg.Seq(c["ops"], {})]
@@ -213,6 +217,13 @@ def explore(ctx, res):
         res.cov["traces_validated_against_impl"] += v_cache
         res.cov["distribution"]["cache_engine"] = {"op_lines": n_cache, "sequences_validated": v_cache}
         res.cov["rule"] += "; plus the pure `cache` engine: random append/len/flush sequences on the real partialCache (duplicates, malformed lengths), Len() compared with the count of distinct appended indices and with the cache model"
+    if not ctx.get("replay"):
+        # groups with holes in the share indices, and old-share partials after a resharing, on networks of real Handlers
+        ncov, nres = netreshare.explore_part(ID, ctx, res)
+        res.cov["evaluations"] += sum(ncov["ops"].values())
+        res.cov["distribution"]["net_reshare"] = ncov
+        res.cov["rule"] += ("; plus engine `net` (vlib/netreshare.py): a group with a hole in its share indices offered a VALID partial for the missing index, leavers that keep "
+                            "signing with old shares after a resharing, old-share partials of still-members: none may be let in or move the head")
     res.cov["distribution"]["threshold_scenarios"] = {"beacon_created_with_threshold_of_intended_contributors": tot[0],
                                                       "beacon_created_because_a_forged_packet_was_a_valid_contribution": tot[1],
                                                       "no_beacon_below_threshold": tot[2]}
